@@ -263,7 +263,30 @@ def run(ctx: RunCtx) -> None:
                 steps.append("advance(2)")
             if not ok:
                 break
-        if ok:
+        raw_tail = False
+        if ok and ch.choose(2, "raw.tail"):
+            # last step of some histories: ANOTHER program of the same user (not a session-tracking client) presents a token
+            # this client holds, without VGI-Session-Accept.  Whatever its method does (close, close-then-open, ...), no
+            # session may be opened for it.  It is the last step because the tracked views cannot know what it did.
+            holders = [(c, t) for c in clients for t in ([c.view.current_session_token()] if c.view is not None else []) + list(c.stash)
+                       if t is not None]
+            if holders:
+                raw_tail = True
+                c, tok = holders[ch.choose(len(holders), "raw.holder")]
+                script = ["co", "cO", "o", "r", "coo", "cor", "n"][ch.choose(7, "raw.script")]
+                tag[0] += 1
+                before = set(registry._entries)
+                out = S.post_act(app, prefix, script, tag[0], identity=c.ident, token=tok, accept=False)
+                gained = set(registry._entries) - before
+                ch.fault("call.token-without-optin")
+                steps.append(f"{c.name}.raw-no-optin.act({script})")
+                ctx.log.add("raw", c.name, script, out.status, len(gained), "vgi-session" in out.headers)
+                if gained or "vgi-session" in out.headers:
+                    ctx.violation(PROPERTY, "open-without-optin", "token-without-accept", f"a request that carried a valid VGI-Session token of "
+                                  f"client {c.name} but no VGI-Session-Accept opened a session (script {script!r}: registry gained "
+                                  f"{len(gained)}, VGI-Session in response: {'vgi-session' in out.headers}); {out.brief()}; steps: {steps}")
+                    ok = False
+        if ok and not raw_tail:
             for c in clients:
                 if c.view is not None:
                     if not _leave(ctx, c, steps, server_set, client_set, resp_shape, nsteps):
